@@ -9,9 +9,9 @@ from .e2e import generate_client
 
 SCHEMA = """
 enum Color { RED GREEN }
-input Inner { n: Int = 7 tag: String }
+input Inner { "documented, with a default" n: Int = 7 "documented, nullable, no default" tag: String }
 input _Cmp { _eq: String _in: [String!] }
-input Filter { color: Color inner: Inner ids: [ID!] maybe: [Int] className: String modelDump: String modelFields: Int copy: Int cmp: _Cmp }
+input Filter { "documented nullable enum" color: Color "documented nullable object" inner: Inner "documented list" ids: [ID!] maybe: [Int] className: String modelDump: String modelFields: Int copy: Int cmp: _Cmp }
 type Query { q(a: Int, b: [Int]!, c: [Int!], m: [[Int]], f: Filter, fs: [Filter], query: String, data: Int, _query: String, className: String): Int }
 """
 QUERIES = """
